@@ -263,6 +263,10 @@ func oneRound(seed int64, db *badger.DB, round int) {
 			default:
 			}
 			n := names[r.Intn(len(names))]
+			if r.Intn(4) == 0 {
+				// resources no handler matches (answered with system.notFound)
+				n = []string{"test.nothing.7", "test.r", "test.g.x.y.z"}[r.Intn(3)]
+			}
 			var subj string
 			switch r.Intn(5) {
 			case 0:
